@@ -362,6 +362,8 @@ impl SeqModel {
                     return Expect::Any;
                 }
                 let mut st = fm.st.clone();
+                // a waiter released by a close or a disconnect may report either error variant (appendix A)
+                let released = matches!(fm.st, FutSt::Ready(FutOut::Released));
                 let r = match fm.send {
                     Some(id) => self.poll_send(&mut st, id),
                     None => self.poll_recv(&mut st),
@@ -369,6 +371,12 @@ impl SeqModel {
                 self.futs[*f as usize].st = st;
                 if let Res::Panicked(_) = r {
                     Expect::Panics("polled after result is already returned")
+                } else if released {
+                    if fm.send.is_some() {
+                        Expect::OneOf(vec![Res::SendErr(E::Closed), Res::SendErr(E::ReceiveClosed)])
+                    } else {
+                        Expect::OneOf(vec![Res::RecvErr(E::Closed), Res::RecvErr(E::SendClosed)])
+                    }
                 } else {
                     ex(r)
                 }
@@ -424,7 +432,22 @@ impl SeqModel {
                     },
                     Obs::IsTerminated => self.m.is_terminated() as u64,
                 };
-                ex(Res::Obs(v))
+                // receivers gone, channel not closed: the buffer may have been destroyed already or be kept until the
+                // last handle goes (no property fixes the instant; nobody can receive from it any more)
+                let alt = if self.m.rc == 0 && self.m.sc > 0 {
+                    match what {
+                        Obs::Len => Some(0),
+                        Obs::IsEmpty => Some(1),
+                        Obs::IsFull => Some((self.m.cap == 0) as u64),
+                        _ => None,
+                    }
+                } else {
+                    None
+                };
+                match alt {
+                    Some(x) if x != v => Expect::OneOf(vec![Res::Obs(v), Res::Obs(x)]),
+                    _ => ex(Res::Obs(v)),
+                }
             }
             Op::Yield | Op::AdvanceClock { .. } | Op::FutJoin { .. } => ex(Res::Unit),
             Op::MLock { .. } | Op::MTryLock { .. } => Expect::Any,
@@ -485,7 +508,8 @@ pub fn o_seq(d: &RunData) -> Vec<Violation> {
                 }
             }
             Expect::Panics(txt) => match &r.res {
-                Res::Panicked(m) if m.contains(txt) => None,
+                // the properties name the situations in which a call panics, not the wording of the message
+                Res::Panicked(_) => None,
                 x => Some(format!("kanal returned {:?}, the documented panic `{}` was expected", x, txt)),
             },
         };
@@ -499,7 +523,7 @@ pub fn o_seq(d: &RunData) -> Vec<Violation> {
         if let Some(rp) = &r.repoll {
             let ok = match &r.op {
                 Op::StreamNext { .. } => rp == "returned Ready(None)",
-                _ => rp.starts_with("panicked: polled after result is already returned"),
+                _ => rp.starts_with("panicked"),
             };
             if !ok {
                 out.push(Violation {
